@@ -396,6 +396,8 @@ func coreLeaves(quick bool) []leaf {
 		{"symbol-piped", vSym("a b")},
 		{"symbol-piped", vSym("a(b")},
 		{"symbol-piped", vSym("a;b")},
+		{"symbol-piped", vSym("a\"b")},
+		{"symbol-piped", vSym("a'b")},
 		{"symbol-empty", vSym("")},
 		{"symbol-numberlike", vSym("1")},
 		{"symbol-nonascii", vSym("é")},
@@ -409,8 +411,6 @@ func coreLeaves(quick bool) []leaf {
 			leaf{"ratio-big", &val{k: kRatio, r: new(big.Rat).SetFrac(new(big.Int).Add(pow2(64), big.NewInt(1)), pow2(63))}},
 			leaf{"double-subnormal", &val{k: kDouble, f: math.SmallestNonzeroFloat64}},
 			leaf{"string-control", vStr("a\x00b")},
-			leaf{"symbol-piped", vSym("a\"b")},
-			leaf{"symbol-piped", vSym("a'b")},
 		)
 	}
 	return out
@@ -601,7 +601,7 @@ func allBaseRadix() []baseRadix {
 func fullCore() []leaf {
 	// 60 objects: 20 leaves x {top, list3, arr23}
 	l := coreLeaves(true)
-	pick := []int{0, 3, 4, 5, 6, 7, 8, 10, 11, 12, 14, 15, 17, 21, 22, 23, 26, 29, 30, 31}
+	pick := []int{0, 3, 4, 5, 6, 7, 8, 10, 11, 12, 14, 15, 17, 21, 22, 23, 28, 31, 32, 33}
 	var out []leaf
 	for _, i := range pick {
 		out = append(out, l[i])
